@@ -19,7 +19,17 @@ _ARITH = {'Add': '+', 'Sub': '-', 'Mul': '*', 'Div': '/', 'Rem': '%', 'BitAnd': 
           'AddUnchecked': '+', 'SubUnchecked': '-', 'MulUnchecked': '*', 'Offset': 'offset'}
 
 
+_SHORT_CACHE = {}
+
+
 def short_callee(path):
+    r = _SHORT_CACHE.get(path)
+    if r is None:
+        r = _SHORT_CACHE[path] = _short_callee(path)
+    return r
+
+
+def _short_callee(path):
     p = strip_generics(path or '?')
     if p.startswith('<') and '>::' in p:
         head, tail = p.rsplit('>::', 1)
